@@ -64,6 +64,8 @@ impl CodeStatement for Statement {
             + ParallelMoves<Code, Temporary>
             + Utils<Temporary>,
     {
+        #[cfg(feature = "verif_hooks")]
+        instructions.push(Backend::comment(verif_marker(&self, &context)));
         match self {
             Statement::Substitute(substitute) => {
                 substitute.code_statement::<Backend, _, _, _>(types, context, instructions);
@@ -104,4 +106,40 @@ impl CodeStatement for Statement {
             }
         }
     }
+}
+
+/// Statement-boundary marker for the external verification harness: statement kind, number of
+/// variables the statement stores into a fresh object, and the ordered environment (name, kind).
+#[cfg(feature = "verif_hooks")]
+fn verif_marker(statement: &Statement, context: &TypingContext) -> String {
+    use axcut::syntax::Chirality;
+    let (kind, stored) = match statement {
+        Statement::Substitute(_) => ("substitute", 0),
+        Statement::Call(_) => ("call", 0),
+        Statement::Let(r#let) => ("let", r#let.args.bindings.len()),
+        Statement::Switch(_) => ("switch", 0),
+        Statement::Create(create) => (
+            "create",
+            create.context.as_ref().map_or(0, |env| env.bindings.len()),
+        ),
+        Statement::Invoke(_) => ("invoke", 0),
+        Statement::Literal(_) => ("lit", 0),
+        Statement::Op(_) => ("op", 0),
+        Statement::PrintI64(_) => ("print", 0),
+        Statement::IfC(_) => ("ifc", 0),
+        Statement::Exit(_) => ("exit", 0),
+    };
+    let env: Vec<String> = context
+        .bindings
+        .iter()
+        .map(|binding| {
+            let chi = match binding.chi {
+                Chirality::Prd => "prd",
+                Chirality::Cns => "cns",
+                Chirality::Ext => "ext",
+            };
+            format!("{}:{chi}", binding.var.print_to_string(None))
+        })
+        .collect();
+    format!("@verif stmt={kind} n={stored} env=[{}]", env.join(","))
 }
